@@ -157,21 +157,25 @@ CHECKS = {
               "combination settles), C17_success (listener on the loopback interface only; Tor is asked to forward the public port to exactly the bound port; the "
               "result comes after the service creation; the address reports the public port), C17_stop (stopListening closes the listener), C17_no_leak (whatever "
               "step fails — configuration unavailable / not a configuration / bootstrap / bind / service creation — listen() fails and no listener is open), "
-              "C17_loopback_only. Correspondence: the real endpoint built through the constructor, Tor.create_*_endpoint and the onion: string parser; listen() "
-              "with a failure injected at every step incl. rejected commands, all uploads failed and a connection lost during the wait."),
+              "C17_loopback_only, C17_retry (a listen() after a failed one binds anew and forwards to its own port), C17_relisten_not_forwarded (the known finding "
+              "C17-relisten-keeps-old-forwarding as the model has it: listen, stopListening, listen again sends no forwarding request). Correspondence: the real endpoint built through the constructor, Tor.create_*_endpoint and the onion: string parser; listen() "
+              "with a failure injected at every step incl. rejected commands, all uploads failed and a connection lost during the wait (the error type is compared "
+              "per step); system_tor / onion: strings with an unreachable control port; single_hop=True against an anonymous Tor; listen() again after a failure and after stopListening()."),
         note=NOTE_COMMON + "PARTIAL: a recording listening port stands in for sockets (MemoryReactor); the service creation and descriptor wait themselves are C14/C15's "
              "models — here they are one step that succeeds or fails. listen() of authenticated services is exercised up to the creation command only (the fake Tor "
-             "does not hand out real RSA keys); the onion: string form without controlPort= (launches a tor binary) is not run.",
+             "does not hand out real RSA keys in this check; C15 does); the onion: string form without controlPort= (launches a tor binary) is not run.",
         technique="Lean 4: exhaustive decision theorem over the option table (decide +kernel over all 144 combinations, lifted by completeness of the table) + step-sequence theorems with a failure at every step; differential correspondence (exhaustive product)",
         ref='§4 C17'),
     'C18': dict(
         text=("C18_reuse (if an existing entry is usable for the request — none requested: any entry that denotes an endpoint; requested: first word "
               "equal — nothing is sent and the endpoint is one such an entry denotes), C18_add (otherwise exactly one SETCONF whose SOCKSPort values are "
               "every existing entry exactly as reported, option words included, in order, followed by the new one), C18_config (the same for "
-              "TorConfig.create_socks_endpoint, exact first-word match), C18_fallback / C18_fallback_all_failed (ports of the generated "
+              "TorConfig.create_socks_endpoint, exact first-word match), C18_sync (TorConfig.socks_endpoint only picks: the first entry, or the one whose first word is the named "
+              "port; its result has no room for a SETCONF), C18_fallback / C18_fallback_all_failed (ports of the generated "
               "socks_ports_to_try in order, move on only after a ConnectError, first success returned, other exceptions propagate, last error "
               "reported). Correspondence: the whole product of store shapes x requests through both APIs against the fake Tor, SETCONF parsed by the "
-              "kvline oracle and compared with the GETCONF answer; every outcome sequence of the fallback on MemoryReactor."),
+              "kvline oracle and compared with the GETCONF answer (also with Tor refusing the SETCONF, configurations mixing entries that denote no endpoint, a repeated first word, "
+              "and Tor._default_socks_endpoint asked twice); every outcome sequence of the fallback on MemoryReactor, one outcome per SOCKS reply code."),
         note=NOTE_COMMON + "Which of several usable entries is picked depends on Python set iteration order and is compared as membership in the model's candidate set. "
              "An existing entry 'auto'/'0' with no port requested through TorConfig.create_socks_endpoint is outside the quantifier (the port Tor chose cannot be read off the line).",
         technique="Lean 4: decision theorems on the port-selection functions + induction over the fallback list (generated constant); differential correspondence (exhaustive product)",
@@ -211,10 +215,11 @@ CHECKS = {
               "C09_known_stream_silent (a STREAM line about a stream already listed consults nobody and sends nothing), C09_circ_event_sends_nothing, "
               "C09_single_slot / C09_install (same attacher: no-op; different: refused; none: SETCONF __LeaveStreamsUnattached=0; install: =1), "
               "C09_via_circuit (a stream whose local source address and port were registered goes to exactly that circuit, consuming the registration, or nowhere "
-              "when the circuit is gone; any other stream is left to Tor and touches no registration), C09_priority_order (PriorityAttacher goes through a sorted "
+              "when the circuit is gone; any other stream is left to Tor and touches no registration), C09_via_lost (a via-circuit connection whose SOCKS side "
+              "fails is failed once; every other registration — same circuit or not — keeps its key, circuit and Deferred; nothing is sent; no object is touched), C09_priority_order (PriorityAttacher goes through a sorted "
               "rearrangement of its entries), C09_priority_first (first non-None answer wins, nobody after it is asked). Correspondence: recording attachers with "
-              "immediate and Deferred answers of every kind, real stream_via() connections over a fake SOCKS endpoint, and the whole product of small "
-              "PriorityAttacher histories."),
+              "immediate and Deferred answers of every kind, real stream_via() connections and Circuit.web_agent() requests over a fake SOCKS endpoint (answered at once, "
+              "left unanswered, refused), and the whole product of small PriorityAttacher histories."),
         note=TS_NOTE + "Coroutine answers share the maybe_coroutine path with Deferred ones and are not generated separately. connect() waiting for a circuit that is not yet "
              "BUILT is not modelled (the generator registers via-circuit connections on BUILT circuits only).",
         technique="Lean 4: decision-table and single-slot theorems on the live-state model, matching theorem for the via-circuit table, sortedness/first-answer theorems for PriorityAttacher; differential correspondence (partly exhaustive)",
@@ -272,8 +277,8 @@ CHECKS = {
         technique="Lean 4: invariant induction over all input orders of the process-protocol model (at-most-once, success-needs-100, failure is final, directory rule, chunk independence); differential correspondence",
         ref='§4 C19'),
     'C20': dict(
-        text=("C20_refines: for EVERY history of ADDRMAP lines (all token forms: local-time field, EXPIRES=, NEVER, <error>, extra flags) and clock "
-              "advances, with any expiry offset past or future, the model's map equals the spec's (Tor's latest mapping per name under the clock: "
+        text=("C20_refines: for EVERY history of ADDRMAP lines (all token forms: local-time field, EXPIRES=, NEVER, <error>, extra flags; taken in with or without the "
+              "reactor getting a turn before the next input) and clock advances, with any expiry offset past or future, the model's map equals the spec's (Tor's latest mapping per name under the clock: "
               "same names, addresses, expiry times) and the listeners hear exactly the spec's notifications, step by step; C20_lookup_name; "
               "C20_lookup_addr (Props/C20b: after every history in which no line gives a name an address another known name holds, lookup by address "
               "returns exactly the spec's live latest mapping carrying it, and nothing once that mapping expired or was replaced — invariant AK: names "
